@@ -42,7 +42,10 @@ class TargetURI:
         """Constructs a instance of TargetURI with the given arguments.
         The ``args`` dict is used for the query string.
         """
-        netloc = host if port is None else join_host_port(host, port)
+        if port is None:
+            netloc = f"[{host}]" if ":" in host else host
+        else:
+            netloc = join_host_port(host, port)
         return cls(urlunparse((scheme, netloc, "", "", urlencode(args), "")))
 
     @property
